@@ -166,7 +166,7 @@ theorem hasLoose_rel (ok : P.Ok) {s₁ s₂ : St} (h : ASim P s₁ s₂) : ∀ (
           exact ih f₂ p.1 (hcl.2 p.1 (by simp [grefs]; exact ⟨p.2, hp⟩))
             (hra p.1 (by simp [grefs]; exact ⟨p.2, hp⟩))
       | block cs =>
-        have hne : j ≠ P.bx := fun e => ht (e ▸ ok.hT)
+        have hne := ok.ne_bx ht
         simp only [mapGrpAt_block_ne P hne]
         refine rwp_anyM P.γ cs _ _ s₁ s₂ ?_
         intro c hc
@@ -248,7 +248,7 @@ theorem connectLoose_rel (ok : P.Ok) : ∀ (f₁ f₂ j : Nat) (d : Dest) (s₁ 
           exact ih f₂ p.1 d u₁ u₂ hu (hcl.2 p.1 (by simp [grefs]; exact ⟨p.2, hp⟩))
             (hra p.1 (by simp [grefs]; exact ⟨p.2, hp⟩))
       | block cs =>
-        have hne : j ≠ P.bx := fun e => ht (e ▸ ok.hT)
+        have hne := ok.ne_bx ht
         simp only [mapGrpAt_block_ne P hne]
         refine arel_forM P.γ cs _ _ h ?_
         intro c hc u₁ u₂ hu
